@@ -23,7 +23,7 @@ def main():
             b.add(c)
         b.run()
         out = [{"gen_ok": bool(c["gen"].get("ok")), "gen_err": c["gen"].get("err") or c["gen"].get("panic") or "", "build_ok": c["build_ok"], "build_err": c["build_err"][:500],
-                "obs": [j.get("obs") for j in c["jobs"]]} for c in b.cases]
+                "obs": [j.get("obs") for j in c["jobs"]], "scan": c.get("scan") or {}} for c in b.cases]
     json.dump(out, open(sys.argv[2], "w"))
 
 
